@@ -31,8 +31,8 @@ RULE = ('cases = inference-model spec x stored set (non-empty subset of simulato
         'some step ran while the pool already held >= 1 batch of >= 1 requested stored node')
 ASSUMPTIONS = ['n_sim >= n_samples; parameter stores are all-or-none; stores of edited nodes and their descendants are dropped before the next run']
 CONFIG = {
-    'quick': {'shards': 16, 'cases': 6, 'timeout': 900, 'floor': 30},
-    'thorough': {'shards': 32, 'cases': 90, 'timeout': 3400, 'floor': 900},
+    'quick': {'shards': 16, 'cases': 30, 'timeout': 900, 'floor': 150},
+    'thorough': {'shards': 32, 'cases': 1080, 'timeout': 5400, 'floor': 10800},
 }
 REQUIRED = ['steps_reusing_sampler_object', 'crash_reopen_steps', 'steps', 'reuse_steps', 'results_compared', 'call_counters_checked', 'pool_batches_compared', 'context_refusals_checked',
             'pool_memory', 'pool_disk', 'edit_steps', 'scheduled_steps', 'steps_loading_from_pool']
